@@ -86,7 +86,8 @@ func run(r *vrt.Run) {
 	// contract creation onto a storage-only account: EIP-7610 says collision, go-ethereum
 	// checks a hard-coded list of mainnet addresses instead. Known divergence, same policy.
 	ft.StorageOnlyCollision = os.Getenv("C26_STORAGE_ONLY_COLLISION") != "0"
-	perFork := r.N(1500, 120000)
+	// counts, not time budgets: one case costs ~0.05 CPU-s in the model and ~0.15 CPU-s in the tool
+	perFork := r.N(1000, 40000)
 	if v := os.Getenv("C26_N"); v != "" {
 		fmt.Sscan(v, &perFork)
 	}
@@ -144,6 +145,17 @@ func run(r *vrt.Run) {
 	sort.Strings(hk)
 	r.Extra("halting_reasons", hk)
 	r.Count("distinct_halting_reasons", len(agg.halts))
+	for _, reason := range []string{"stop", "return", "revert", "selfdestruct", refevm.HaltOOG, refevm.HaltUnderflow, refevm.HaltOverflow,
+		refevm.HaltInvalidOp, refevm.HaltBadJump, refevm.HaltStatic, refevm.HaltRetBounds, refevm.HaltCodeSize, refevm.HaltCodePrefix,
+		refevm.HaltCodeStoreOOG, refevm.HaltInitcodeSize, refevm.HaltPrecompile, "precompile " + refevm.HaltOOG, refevm.HaltCollision} {
+		if agg.halts[reason] == 0 {
+			r.Inconclusive("coverage obligation not met: halting reason %q never observed", reason)
+		}
+	}
+	r.Require("max_call_depth", 1024)
+	r.Require("cases_with_requests", 10)
+	r.Require("cases_invalid_block", 3)
+	r.Require("floor_binding_only_after_refund", 5) // EIP-7623 floor vs refund order is exercised
 	r.Require("cases_with_rejected", 10)
 	r.Require("receipts_compared", 100)
 	r.Assume("ORACLE IS NOT EELS: refevm, an independently written model of the yellow paper + EIPs (lib/refevm); a misreading shared by model and client goes unnoticed")
@@ -182,7 +194,21 @@ func judge(r *vrt.Run, bin string, c *Case, idx int, agg *covAgg) {
 	for _, reason := range ref.RejectReasons {
 		r.Count("reject:"+reason, 1)
 	}
-	for _, tr := range ref.TxResults {
+	for i, tr := range ref.TxResults {
+		if !tr.Rejected && c.Fork >= refevm.Prague {
+			// EIP-7623 situations: floor binding at all / binding only because of the refund
+			_, floor := refevm.IntrinsicGas(c.Fork, txs[i])
+			before := txs[i].Gas - tr.GasLeftExec
+			if tr.GasUsed == floor.Uint64() && before-tr.Refund < floor.Uint64() {
+				r.Count("floor_binding", 1)
+				if before >= floor.Uint64() {
+					r.Count("floor_binding_only_after_refund", 1)
+				}
+			}
+		}
+		if tr.Refund > 0 {
+			r.Count("txs_with_refund", 1)
+		}
 		if !tr.Rejected {
 			if tr.Reason == "" {
 				r.Count("txresult:success", 1)
